@@ -19,6 +19,9 @@ CHECKS = {
  'C10': ('treedec', 'TLC enumerates all graphs (MC_TreeDec; R3: DP treewidth = min over all elimination orders) -> tree_decomposition x 3 methods, min_fill, minor_min_width, quickbb -> TLC judges validity and optimality by definition (Trace_TreeDec)',
          'Exhaustive over every labelled simple graph on <=5 (quick) / <=6 (thorough) vertices in two vertex insertion orders, structured graphs (cliques, paths, cycles, stars, grids) and seeded graphs on 7-9 vertices; TLC decides tree-ness, coverage, running intersection and computes the treewidth by subset DP, itself cross-checked against all elimination orders (R3).',
          'Trusted: TLC, TreeDec.tla (definition of tree decomposition, treewidth DP), the driver that converts the returned dict of frozensets into bags/edges. Empty graph: only validity (width conventions differ).', 'DESIGN.md#c10'),
+ 'C14': ('jsonfmt', 'seeded abstract grammars (mixed explicit/implicit ids, finite/range domains, dense + diagonal/expanded patterned weights, INF entries, unused labels) -> fgg_to_json / json.dumps / json_to_fgg / second trip and malformed variants on the real code -> TLC judge (Trace_Json): JSON object = abstract grammar up to renaming of implicit ids (isomorphism search per rule), round trip, verbatim second trip, ValueError exactly on out-of-range numbers',
+         'Each JSON object the library writes is itself handed to TLC and compared with the abstract grammar: label tables, types, start, rules of every left-hand side in order up to isomorphism with explicit ids preserved, domains, factor weights; the object read back is compared the same way; every attachment/external position is overwritten with -n-1,-n,-1,0,n-1,n,n+1.',
+         'Trusted: TLC, JsonFmt.tla, the projection of weight lists to [shape, flat] integers. json_to_weights of patterned specifications (physical/expand/vaxes/default) is covered by the Axes denotation in C06, not here.', 'DESIGN.md#c14'),
  'C15': ('derive', 'seeded derivation trees -> TLC enumerates EVERY linearisation (Derive!DvLinearisations) -> start_graph/replace_edge replayed on real graphs along each, FGGDerivation.derive() on the same tree -> TLC judge (Trace_Derive): per-step replacement post-condition, final graph = the graph derived by definition under canonical naming',
          'All linearisations (schedules) of each of 140 (quick) / 1500 (thorough) seeded derivation trees with <=4 / <=5 rule instances (complete and partial, recursive grammars, nullary/repeated attachments, arity-0..2 nonterminals); every replace_edge step is judged against the replacement post-condition, every final graph against Derive.tla; derive() is judged for graph, totality of the assignment and product weight; wrong-type replacements must raise and leave the graph unchanged.',
          'Trusted: TLC, Derive.tla, the canonical naming done by the driver from the returned node_map/edge_map. Replacement graphs have distinct external nodes; tree size is bounded.', 'DESIGN.md#c15'),
